@@ -232,7 +232,7 @@ fn permute(spec: &TwinSpec, p: u32) -> TwinSpec {
         }
         _ => {
             // Fisher-Yates with a tiny LCG.
-            let mut x = p as u64 * 6364136223846793005 + 1442695040888963407;
+            let mut x = (p as u64).wrapping_mul(6364136223846793005).wrapping_add(1442695040888963407);
             for i in (1..items.len()).rev() {
                 x = x.wrapping_mul(6364136223846793005).wrapping_add(1442695040888963407);
                 let j = (x >> 33) as usize % (i + 1);
@@ -280,7 +280,7 @@ fn check_order(c: &OrderCase) -> Verdict {
 
 fn groups(g: &mut Groups) {
     use proptest::prelude::*;
-    g.prop("registration_order", 4_000, 200_000, (super::twingen::spec_with(0.3), 0u32..=12).prop_map(|(spec, permutation)| OrderCase { spec, permutation }), check_order);
+    g.prop("registration_order", 8_000, 200_000, || (super::twingen::spec_with(0.3), 0u32..=12).prop_map(|(spec, permutation)| OrderCase { spec, permutation }), check_order);
     if !g.is_run() || g.ctx.shard != 0 {
         return;
     }
